@@ -115,6 +115,18 @@ prop("C07", True, "model_checking",
      "Trusted: the field lists of the comparison; inputs outside the families.",
      "DESIGN.md 3/C07", E1)
 
+prop("C02", True, "model_checking",
+     "exhaustive enumeration of bounded-deviation files and dense path / timing / sample products; field-by-field comparison of decode(x) with decode(encode(decode(x)))",
+     "Every input of the families (full-featured baseline per mode/version with one or two records replaced/inserted/deleted, all slider path token strings up to a length x length classes, chronological timing triples x object pairs, hit-sound x extras x node counts, bundled files) is decoded, encoded and decoded again; every field the statement lists is compared, excluded fields are excluded, non-chronological inputs and consecutive explicit Catmull segments are counted and skipped.",
+     "Trusted: the comparison's field list; 8-ulp tolerance on slider-velocity-derived values; two recorded findings (format limitations) classified narrowly.",
+     "DESIGN.md 3/C02", E1)
+
+prop("C04", True, "model_checking",
+     "exhaustive enumeration of the C02 families plus hostile/non-chronological families; independent line walker over every encoding using the public section parsers as acceptance oracle",
+     "For every decoded map the encoder output is walked: version line, the eight headers once in order, every record accepted by its section parser on a running state, no record droppable by framing, walked state equals decoded text, counts and kinds/times of hit objects read back.",
+     "Trusted: the public parse_* functions as acceptance oracle; two recorded findings (values beyond the decoder's own limits).",
+     "DESIGN.md 3/C04", E1)
+
 NOT_BUILT_REASON = "check not built yet in this session (planned, see DESIGN.md section 3); not claimed until it exists"
 
 def main():
